@@ -22,13 +22,16 @@ def run(chk, ctx):
     chk.describe("C12.SEQ", "Write_Forward(k) is followed by the unit step Forward [k-1, k] in the sequence builders")
     runs = all_runs(chk, ctx)
     for run_ in runs:
-        for rec in run_.interp.yields:
+        for rec in recs(run_.interp):
             st, cons = rec.state, ycons(run_, rec)
+            if rec.early and rec.kind != "Forward":
+                continue
             if rec.kind == "Forward" and rec.arg(4, "storage") == WORK and truth(st, rec.arg(3)) is True \
                     and run_.cname != KEEP_ALL:
                 a, b = rec.arg(0), rec.arg(1)
                 if not (is_lin(a) and is_lin(b)):
-                    chk.decide("C12.ONE", cons, None, "bounds not linear", rel=run_.rel, node=rec.node)
+                    if not rec.early:
+                        chk.decide("C12.ONE", cons, None, "bounds not linear", rel=run_.rel, node=rec.node)
                     continue
                 if run_.owner == shared.CONVERTER:
                     chk.note("C12.ONE for the converter: unit length follows from the grammar rule C12.SEQ "
@@ -36,7 +39,7 @@ def run(chk, ctx):
                     continue
                 tri(chk, "C12.ONE", cons, prove_eq(st, b - a - ONE), run_, rec, "length of the Forward that writes adjoint data minus 1")
                 res = prove_eq(st, b - (M - R))
-                if res[0] is None and run_.cname == "MixedCheckpointSchedule":
+                if res[0] is None and run_.cname == "MixedCheckpointSchedule" and not rec.early:
                     chk.note("C12.ONE/position for Mixed relies on the planner returning FORWARD_REVERSE only for one "
                              "remaining step; the post-loop guards raise otherwise (C02.CONTIG proves hi == max_n - r at the Reverse)")
                 else:
